@@ -103,8 +103,9 @@ class StepBudgetExceeded(Exception):
 class CountingReader(io.BytesIO):
     """BytesIO that counts reads/bytes/seeks and raises beyond a budget (termination on a logical measure)."""
 
-    def __init__(self, data, budget_calls=None):
+    def __init__(self, data, budget_calls=None, edges=()):
         super().__init__(data)
+        self.edges = sorted(edges)      # piece edges: a read never crosses one (data that arrives in pieces)
         self.n_reads = 0
         self.n_bytes = 0
         self.n_seeks = 0
@@ -116,6 +117,11 @@ class CountingReader(io.BytesIO):
         self.n_reads += 1
         if self.n_reads > self.budget_calls:
             raise ReadBudgetExceeded(f'{self.n_reads} read calls on a {self.size}-byte stream')
+        if self.edges:
+            pos = self.tell()
+            nxt = next((e for e in self.edges if e > pos), None)
+            if nxt is not None and (n is None or n < 0 or pos + n > nxt):
+                n = nxt - pos
         b = super().read(n)
         self.n_bytes += len(b)
         if not b:
